@@ -16,7 +16,10 @@ Open Scope Z_scope.
 
 (* the sources still have the structure the model was written for (reply = two bytes Ver, Method
    decoded big-endian; request = Ver, NMethods, Methods in one Write; record fields taken from the
-   request; --timeout wired to both the dial and the data timeout) *)
+   request; --timeout wired to both the dial and the data timeout; and -- because scan.GenericEngine
+   drives ONE Scanner from all its workers, while the model is of one probe -- the reply is decoded
+   into a fresh local of Scan and Scan neither writes to the Scanner nor takes the address of one of
+   its fields, so concurrent probes cannot see each other's bytes) *)
 Theorem C09_wiring : socks_wiring_ok = true.
 Proof. vm_compute. reflexivity. Qed.
 
